@@ -52,10 +52,14 @@ CHECKS = {
             "final carries transopt's cycles and ls's activities, answer = projection of final", "6-C16"),
     "C17": ("Net.tla!NetObsOK: every public Network getter (nodes, limits, depots, can_reach matrix, successors / "
             "predecessors, dead-heads) compared by TLC with the reference network derived from the abstract instance", "6-C17"),
+    "C18": ("Server.tla: request/response machine (clients, bounded handler threads, own-answer function Expected, no action "
+            "that stops the server); TLC checks OwnAnswer, ServerStaysUp, ThreadsConserved and the liveness property "
+            "EveryRequestAnswered (health answered although all threads are busy) and emits all complete schedules; lib/httpdrive.py "
+            "replays them with real concurrency against the real server binary; TraceServer.tla requires every exchange to be the "
+            "Expected completion of its OWN request (valid: Output.tla predicates w.r.t. the request's own instance)", "6-C18"),
 }
 
 NOT_YET = {
-    "C18": "check under construction in this session (HTTP service)",
 }
 
 
